@@ -222,6 +222,9 @@ func c15Load(n *nfa.NFA) *c15Auto {
 }
 
 type c15Sim struct {
+	first      [256][]int32 // without Look states: the set after the first byte, computed once
+	firstOK    bool
+	startMatch bool
 	a          *c15Auto
 	mark       []uint32
 	gen        uint32
@@ -284,9 +287,36 @@ func (s *c15Sim) closure(q int32, h []byte, p int, dst []int32) []int32 {
 
 // accepts: anchored whole-string acceptance from the anchored start state.
 func (s *c15Sim) accepts(h []byte) bool {
-	s.gen++
-	s.cur = s.closure(s.a.start, h, 0, s.cur[:0])
-	for p := 0; p < len(h); p++ {
+	if !s.a.hasLk {
+		// the start closure and the first step do not depend on the input: tabulate them
+		// (large classes have thousands of states in the start closure)
+		if !s.firstOK {
+			s.firstOK = true
+			s.startMatch = s.run(nil, 0, nil)
+			s.gen++
+			start := s.closure(s.a.start, nil, 0, nil)
+			for b := 0; b < 256; b++ {
+				s.run([]byte{byte(b)}, 0, start)
+				s.first[b] = append(make([]int32, 0, len(s.cur)+1), s.cur...)
+			}
+		}
+		if len(h) == 0 {
+			return s.startMatch
+		}
+		return s.run(h, 1, s.first[h[0]])
+	}
+	return s.run(h, 0, nil)
+}
+
+// run simulates h[from:] starting from the given set (nil: the start closure at position 0).
+func (s *c15Sim) run(h []byte, from int, set []int32) bool {
+	if set == nil {
+		s.gen++
+		s.cur = s.closure(s.a.start, h, 0, s.cur[:0])
+	} else {
+		s.cur = append(s.cur[:0], set...)
+	}
+	for p := from; p < len(h); p++ {
 		if len(s.cur) == 0 {
 			return false
 		}
@@ -432,7 +462,7 @@ type c15Result struct {
 	GoFail    bool     `json:"go_fail"`
 	Diffs     int      `json:"diffs"`
 	Witnesses []string `json:"witnesses,omitempty"` // kind:hex, first of each kind
-	CoqID     int      `json:"coq_id"`               // -1: not emitted
+	CoqID     int      `json:"coq_id"`              // -1: not emitted
 	Shard     int      `json:"shard"`
 	Note      string   `json:"note,omitempty"`
 	dump      dumpedNFA
